@@ -50,6 +50,12 @@ def run(rep):
             tok, _ = imggen.gen(rng, ct, depth, w, h, rng.random() < 0.3, rng.choice(imggen.CLASSES), rng.choice(imggen.KEY_MODES))
             png = e2e.png_from_token(rng, tok)
         o = e2e.rand_opts(rng, "any")
+        if kind == 0 and rng.random() < 0.3:
+            # policies that name only SOME of the three animation chunk types (they are stripped together unless all three are kept)
+            hx = lambda *ns: "+".join(n.encode().hex() for n in ns)
+            pol = rng.choice(["strip:" + hx("fdAT"), "strip:" + hx("fcTL"), "strip:" + hx("fcTL", "fdAT"), "strip:" + hx("acTL"),
+                              "keep:" + hx("acTL"), "keep:" + hx("acTL", "fcTL"), "keep:" + hx("fcTL", "fdAT"), "keep:" + hx("acTL", "fcTL", "fdAT")])
+            o = ",".join([x for x in o.split(",") if x != "-" and not x.startswith("strip=")] + ["strip=" + pol])
         cs.add(f"optlog {o} - {png.hex()}", png=png, opts=o, kind=kind)
     out = e2e.run_pairs(rep, cs, "optimize_from_memory (all options)")
     orc = vlib.Cases()
